@@ -55,6 +55,8 @@ def reroute(rng, case):
             out.append({"base": ("clone", shift(b[1]))}); alive_case.add(nxt); live.add(shift(nxt)); nxt += 1
         elif b[0] == "call":
             out.append({"base": ("call", rng.choice(sorted(live)), b[2], b[3])})
+        elif b[0] == "lend":
+            out.append({"base": ("lend", rng.choice(sorted(live)))})
         elif b[0] in ("drop", "verify", "report") and b[1] == 0:
             for k in range(extra):
                 out.append({"base": ("drop", 1 + k), "_extra": True}); live.discard(1 + k)
@@ -110,6 +112,11 @@ def base_cases(rng, tier):
         c = C03.gen_case(rng); c.pop("_steered", None); out.append(c)
     for _ in range(n):
         c = C04.gen_case(rng); c.pop("_prefix", None); out.append(c)
+    # values lent through the instance a call happens to be routed through (they may own clones of the mock)
+    for c in out:
+        if rng.random() < 0.3:
+            live = 0
+            c["events"].insert(rng.randint(0, max(0, len(c["events"]) - 2)), {"base": ("lend", 0)})
     for c in out:
         for t in c["terms"]:
             for p in ([t["pat"]] if t["kind"] == "call" else t["pats"]):
